@@ -182,6 +182,27 @@ func (e *explorer[T, A]) sources(shape []int, base int) []struct {
 		arr  A
 		vals []T
 	}{"row-gapped-source", gv, modelValues(wv2, wide2, loc2, shape, nil)})
+	// the other back-end (a Go-native source for a C-backed destination and the other way round): contiguous and stepped
+	if e.be.Alt != nil {
+		av := make([]T, n)
+		for i := range av {
+			av[i] = T(base + 50 + i)
+		}
+		out = append(out, struct {
+			name string
+			arr  A
+			vals []T
+		}{"other-backend-contiguous-source", e.be.Alt(av, shape).Arr, av})
+		wv3 := make([]T, product(wide))
+		for i := range wv3 {
+			wv3[i] = T(base + 150 + i)
+		}
+		out = append(out, struct {
+			name string
+			arr  A
+			vals []T
+		}{"other-backend-stepped-source", e.be.Alt(wv3, wide).Arr.Slice(cp(loc), cp(shape), cp(step)), modelValues(wv3, wide, loc, shape, step)})
+	}
 	return out
 }
 
@@ -199,9 +220,10 @@ func (e *explorer[T, A]) writeOps(m *mview[T]) []wop[T, A] {
 	shape := m.shape
 	nd := len(shape)
 	n := product(shape)
-	for k := 0; k < n; k++ {
-		idx := unrank(k, shape)
-		val := T(200 + k)
+	for _, idx := range e.positions(shape) {
+		idx := idx
+		k := rank(idx, shape)
+		val := T(200 + k%50)
 		ops = append(ops, wop[T, A]{fmt.Sprintf("Set(%v)", idx), "Set", func(v A, mm *mview[T]) { v.Set(cp(idx), val); mm.set(idx, val) }})
 		switch nd {
 		case 1:
@@ -223,7 +245,7 @@ func (e *explorer[T, A]) writeOps(m *mview[T]) []wop[T, A] {
 		// Apply along every dimension from this position
 		for d := 0; d < nd; d++ {
 			for _, step := range []int{1, 2} {
-				for L := 1; idx[d]+(L-1)*step < shape[d]; L++ {
+				for _, L := range e.axisLens(shape[d], idx[d], step) {
 					if L == 1 && step == 2 {
 						continue
 					}
@@ -271,20 +293,22 @@ func (e *explorer[T, A]) writeOps(m *mview[T]) []wop[T, A] {
 		for _, sv := range stepVariants {
 			sv := sv
 			// all block shapes that fit
-			maxb := make([]int, nd)
+			blocks := [][]int{{}}
 			for d := 0; d < nd; d++ {
 				s := 1
 				if sv != nil {
 					s = sv[d]
 				}
-				maxb[d] = (shape[d]-1-idx[d])/s + 1
-			}
-			nb := product(maxb)
-			for bi := 0; bi < nb; bi++ {
-				b := unrank(bi, maxb)
-				for d := range b {
-					b[d]++
+				var next [][]int
+				for _, b := range blocks {
+					for _, L := range e.axisLens(shape[d], idx[d], s) {
+						next = append(next, append(append([]int{}, b...), L))
+					}
 				}
+				blocks = next
+			}
+			for _, b := range blocks {
+				b := b
 				if sv != nil {
 					// a step of 2 only matters when the block is longer than 1 in that dimension
 					skip := false
@@ -523,6 +547,63 @@ func (e *explorer[T, A]) checkBulk(chain []Op, w *world[T, A]) bool {
 			}
 		}
 	}
+	// a view object must not remember what it gathered: Unroll, Reshape and use as a source again, after the storage
+	// changed by a route other than the view's own Set (through the root array; by CopyFrom into the view)
+	if n > 0 {
+		for _, route := range []string{"root-Set", "CopyFrom-into-the-view"} {
+			w3, err := build(e.be, e.root, chain, e.obs)
+			if err != nil {
+				return false
+			}
+			v3, m3 := w3.views[len(w3.views)-1], w3.models[len(w3.models)-1]
+			if route == "root-Set" && m3.st != w3.mroot {
+				continue // the chain went through a copying Reshape: this view no longer shares the root's storage
+			}
+			var stale string
+			if p := try(func() {
+				_ = v3.Unroll()
+				_, _ = v3.Reshape([]int{n})
+				if route == "root-Set" {
+					for _, k := range []int{0, n - 1} {
+						off := m3.offs[k]
+						w3.root.Arr.Set(unrank(off, e.root), T(91+k%2))
+						w3.mroot.vals[off] = T(91 + k%2)
+					}
+				} else {
+					src := e.sources(m3.shape, 40)[0]
+					v3.CopyFrom(src.arr)
+					for k := 0; k < n; k++ {
+						m3.set(unrank(k, m3.shape), src.vals[k])
+					}
+				}
+				want := m3.values()
+				u := v3.Unroll()
+				r, rerr := v3.Reshape([]int{n})
+				zero := make([]T, n)
+				dst := e.be.New(zero, m3.shape).Arr
+				dst.CopyFrom(v3)
+				for k := 0; k < n && stale == ""; k++ {
+					if u[k] != want[k] {
+						stale = fmt.Sprintf("second Unroll()[%d] = %v, the view now holds %v", k, u[k], want[k])
+					} else if rerr == nil && r.Get([]int{k}) != want[k] {
+						stale = fmt.Sprintf("second Reshape([%d]) element %d = %v, the view now holds %v", n, k, r.Get([]int{k}), want[k])
+					} else if g := dst.Get(unrank(k, m3.shape)); g != want[k] {
+						stale = fmt.Sprintf("CopyFrom(view) delivered %v for element %d, the view now holds %v", g, k, want[k])
+					}
+				}
+			}); p != nil {
+				e.fail("reuse-after-write-panics/"+route, chain, fmt.Sprintf("Unroll/Reshape, %s, Unroll/Reshape again panicked: %v", route, p.v), nil)
+				return false
+			}
+			if stale != "" {
+				e.fail("view-remembers-old-contents/"+route, chain, "after "+route+": "+stale, nil)
+				return false
+			}
+			if !e.verify(chain, w3, "after-reuse-after-"+route) {
+				return false
+			}
+		}
+	}
 	// ReshapeFast fails exactly on non-contiguous views
 	flat := []int{n}
 	_, ferr := v.ReshapeFast(cp(flat))
@@ -586,7 +667,8 @@ func (e *explorer[T, A]) checkBulk(chain []Op, w *world[T, A]) bool {
 			{"ApplyFunc1", func(d, s A) { e.be.Func1(d, s, func(x T) T { return x + T(5) }) }, func(d, s T) T { return s + T(5) }},
 		}
 		for _, bo := range bops {
-			for si := 0; si < 4; si++ {
+			nsrc := len(e.sources(m.shape, 30))
+			for si := 0; si <= nsrc; si++ {
 				w2, err := build(e.be, e.root, chain, e.obs)
 				if err != nil {
 					return false
@@ -595,7 +677,7 @@ func (e *explorer[T, A]) checkBulk(chain []Op, w *world[T, A]) bool {
 				var src A
 				var svals []T
 				sname := "self"
-				if si < 3 {
+				if si < nsrc {
 					s := e.sources(m2.shape, 30)[si]
 					src, svals, sname = s.arr, s.vals, s.name
 				} else {
@@ -614,7 +696,7 @@ func (e *explorer[T, A]) checkBulk(chain []Op, w *world[T, A]) bool {
 				if !e.verify(chain, w2, "after-"+cls) {
 					return false
 				}
-				if si < 3 {
+				if si < nsrc {
 					// the source must be unchanged
 					for k := 0; k < n; k++ {
 						if src.Get(unrank(k, m2.shape)) != svals[k] {
